@@ -197,7 +197,7 @@ def expectedKinds : List (String × List String × Bool) :=
 
 theorem facts_ok :
     Gen.C28.kinds = expectedKinds ∧ Gen.C28.signCoversNetworkHashTime = true ∧
-    Gen.C28.nodeSignCoversNode = true ∧ Gen.C28.extractErrors = [] := by decide
+    Gen.C28.nodeSignCoversNode = true ∧ Gen.C28.operationHashReadsSignsInOrder = true ∧ Gen.C28.extractErrors = [] := by decide
 
 theorem source_pinned : Gen.C28.pins = Pins.C28 := by decide
 
